@@ -16,8 +16,9 @@ CONFIGS = {
               # timestamps (and, rotated, complex doubles) fragmented over segments and chunks
               ("MC_C10", "MC_C10.cfg", {"MaxSegs": 2, "ObjLists": "c_ObjListsQ", "KVals": "{1, 2}", "NVals": "{2}",
                                         "TypeSet": "c_TypeSetBig", "MaxPropObjs": 0}, 2),
-              # a channel larger than any internal block size (1 MiB), copied to a stream and to a path
-              ("MC_C10", "MC_C10.cfg", {"MaxSegs": 1, "ObjLists": "c_ObjListsBig", "KVals": "{1}", "NVals": "{80001}",
+              # a channel larger than any internal block size (1 MiB), copied to a stream and to a path; 80001 values is
+              # no multiple of anything, 2^17 values is an exact multiple of every power-of-two block length up to it
+              ("MC_C10", "MC_C10.cfg", {"MaxSegs": 1, "ObjLists": "c_ObjListsBig", "KVals": "{1}", "NVals": "{80001, 131072}",
                                         "TypeSet": "c_TypeSetBig", "MaxPropObjs": 0}, 2)],
     "thorough": [("MC_C10", "MC_C10.cfg", {"MaxSegs": 2, "ObjLists": "c_ObjListsQ", "KVals": "{1}", "TypeSet": "c_TypeSet",
                                            "MaxPropObjs": 0}, 2),
